@@ -435,7 +435,124 @@ def check_c13(tier):
                   time_budget=budget(tier, 150, 3000))
 
 
+def check_c12(tier):
+    from . import io_checks as io
+    return run_e3("C12", tier, [
+        ("c12", "tracks_from_df: all forests x id schemes x parent encodings x dims x column namings x extras x position orders, + malformed variants at every row",
+         lambda: io.c12_cases(tier)),
+        ("c12g", "import_from_geff: stores written with geff.write (thinned product of forests x id schemes x dims x namings x position modes)",
+         lambda: io.c12_geff_cases(tier)),
+    ], time_budget=budget(tier, 200, 3000))
+
+
+def check_c15(tier):
+    from . import io_checks as io
+    return run_e3("C15", tier, [("c15", "all forests x all node subsets x {CSV, GEFF} x {noseg, seg}", lambda: io.c15_cases(tier))],
+                  time_budget=budget(tier, 200, 3000))
+
+
+# ---------------------------------------------------------------------------
+# state-set checks (C14, C16): BFS collects the distinct states, then every state
+# is rebuilt and put through the file round trips / read-only operations
+
+def run_stateset(prop, tier, stages, state_fn_name, fmt_for=None, assumptions=None, time_budget=None):
+    from . import io_checks as io
+    t0 = time.time()
+    deadline = t0 + time_budget if time_budget else None
+    cov = {"states": 0, "transitions": 0, "traces_validated_against_impl": 0, "stages": [], "samples": [],
+           "exhaustive": True, "caps": []}
+    vio = []
+    fn = getattr(io, state_fn_name)
+    for st in stages:
+        cfg = explore.Cfg(props=[], depth=st["depth"], kinds=st.get("kinds"))
+        ws = [(wn, s) for wn in st["worlds"] for s in st["seeds"]]
+        print(f"[{prop}] stage {st['name']}: collecting distinct states, depth {st['depth']}")
+        r = explore.run(cfg, ws, deadline=deadline, collect_states=True, log=lambda *_a: None)
+        states = r["state_list"]
+        if st.get("formats"):
+            tasks = [(wn, sj, hj, st["formats"]) for (wn, sj, hj) in states]
+        else:
+            tasks = [(wn, sj, hj) for (wn, sj, hj) in states]
+        capped = r["capped"]
+        if st.get("max_states") and len(tasks) > st["max_states"]:
+            capped = f"{len(tasks)} distinct states > cap {st['max_states']}: only the first {st['max_states']} (BFS order) were checked"
+            tasks = tasks[: st["max_states"]]
+        res = explore.pmap(fn, tasks, chunk=4)
+        n_ops = 0
+        for k, v in res:
+            n_ops += k
+            for x in v:
+                x["check_fn"] = state_fn_name
+                x["task_formats"] = st.get("formats")
+            vio.extend(v)
+        cov["states"] += len(tasks)
+        cov["transitions"] += n_ops
+        cov["traces_validated_against_impl"] += n_ops
+        cov["stages"].append({"name": st["name"], "worlds": st["worlds"], "seeds": st["seeds"], "depth": st["depth"],
+                              "distinct_states": len(states), "states_checked": len(tasks), "operations": n_ops,
+                              "formats": st.get("formats"), "capped": capped})
+        if capped:
+            cov["exhaustive"] = False
+            cov["caps"].append(f"{st['name']}: {capped}")
+        for t in tasks[1:3]:
+            cov["samples"].append({"world": t[0], "seed": t[1], "history": t[2]})
+        print(f"  {len(states)} distinct states, {n_ops} operations, {len(vio)} raw violations, {time.time() - t0:.1f}s")
+    cov["rule"] = ("distinct states of an explicit-state BFS (all events per state, canonical-key de-duplication) on the real "
+                   "code; every state is rebuilt from its history and every listed operation is executed on it; "
+                   "'transitions' = operations (round trips / read-only calls) executed")
+
+    def replay_fn(rec):
+        c = rec["case"]
+        if state_fn_name == "roundtrip_state":
+            _n, v = io.roundtrip_state((c["world"], c["seed"], c["history"], [c["format"]]))
+        else:
+            _n, v = io.readonly_state((c["world"], c["seed"], c["history"]))
+        sigs = sorted({x["signature"] for x in v})
+        return sigs if rec["signature"] in sigs else []
+
+    return {"coverage": cov, "violations": [v for v in vio if v["property"] == prop], "replay_fn": replay_fn,
+            "assumptions": ASSUME_COMMON + ["geff / zarr / pandas / tifffile are trusted"] + (assumptions or [])}
+
+
+def check_c14(tier):
+    q = tier == "quick"
+    sk = STRUCT_KINDS + ("set_attr",)
+    stages = [
+        dict(name="csv+internal noseg", worlds=["noseg-2d", "noseg-3d", "noseg-2d-axes", "noseg-2d-given"], seeds=HAND_SEEDS,
+             depth=1 if q else 2, kinds=sk, formats=["csv", "internal"], max_states=None if q else 8000),
+        dict(name="csv+internal seg", worlds=["seg-2d", "seg-3d-aniso"], seeds=HAND_SEEDS, depth=1, kinds=SEG_KINDS,
+             formats=["csv", "internal"], max_states=1500 if q else None),
+        dict(name="geff noseg", worlds=["noseg-2d", "noseg-3d", "noseg-2d-axes"], seeds=["div", "skip", "two"], depth=1, kinds=sk,
+             formats=["geff"]),
+        dict(name="geff seg", worlds=["seg-2d", "seg-3d-aniso"], seeds=["div", "skip"] if q else HAND_SEEDS, depth=1 if not q else 0,
+             kinds=SEG_KINDS, formats=["geff"]),
+    ]
+    if q:
+        stages.append(dict(name="geff seg edited", worlds=["seg-2d"], seeds=["desc"], depth=1, kinds=("del_node", "paint", "add_edge"),
+                           formats=["geff"], max_states=120))
+    return run_stateset("C14", tier, stages, "roundtrip_state", time_budget=budget(tier, 200, 3000),
+                        assumptions=["key mapping supplied explicitly (the mapping corresponding to the exporter's column names), never inferred",
+                                     "CSV read with float_precision='round_trip'", "the empty solution is not exported"])
+
+
+def check_c16(tier):
+    q = tier == "quick"
+    sk = STRUCT_KINDS + ("set_attr",)
+    stages = [
+        dict(name="noseg", worlds=["noseg-2d", "noseg-2d-axes"] if q else ["noseg-2d", "noseg-3d", "noseg-2d-axes", "noseg-2d-given"],
+             seeds=HAND_SEEDS, depth=1, kinds=sk),
+        dict(name="seg", worlds=["seg-2d", "seg-2d-aniso", "seg-3d"], seeds=HAND_SEEDS if not q else ["div", "skip", "two"], depth=0 if q else 1, kinds=SEG_KINDS),
+    ]
+    if q:
+        stages.append(dict(name="seg edited", worlds=["seg-2d"], seeds=["desc"], depth=1, kinds=("del_node", "paint", "add_edge"), max_states=60))
+    return run_stateset("C16", tier, stages, "readonly_state", time_budget=budget(tier, 200, 3000))
+
+
 CHECKS = {
+    "C12": check_c12,
+    "C14": check_c14,
+    "C15": check_c15,
+    "C16": check_c16,
     "C13": check_c13,
     "C17": check_c17,
     "C18": check_c18,
